@@ -322,6 +322,11 @@ def judge(ctx, subjects, results, crashes, prefix="slice", with_final=True):
             ctx.violation(key, "%s on plan %s (%s)" % (w, json.dumps(pb["plan"])[:300], s["cls"]),
                           dict(kind="subject", entry=s["entry"], args=s["args"], cls=s["cls"], data=s["data"].hex(), plan=pb["plan"]))
         one = r["one"]
+        if s.get("expect_ret") and one is not None:
+            # the verdict on this input is fixed by the format (judged independently by harness/glue)
+            hists.append(("%s|%s|" % (s["entry"], short_cls(s["cls"])),
+                          [{"e": "Parse", "entry": s["entry"], "ret": one["ret"], "expect": s["expect_ret"], "cls": s["cls"],
+                            "olen": one["olen"], "input": s["data"].hex()[:2000]}]))
         for t in r["traces"]:
             if one is None or one["ret"].startswith("INIT_"):
                 continue
@@ -452,6 +457,8 @@ def trace_key(label, e, idx):
     entry, cls = parts[0], parts[1]
     if len(parts) > 2 and parts[2] and e.get("e") == "Final":
         return parts[2]
+    if e.get("e") == "Parse":
+        return "verdict:%s:%s:%s" % (entry, ":".join(cls.split(":")[:3]), e.get("ret"))
     if e.get("e") == "Run":
         return "determinism:%s:output-differs" % entry
     if e.get("e") == "Final":
@@ -486,6 +493,8 @@ def run(ctx):
     S += c06corpus.lzma2_subjects(rng, quick, 2 if quick else 10)
     S += c06corpus.lzip_subjects(rng, quick, 2 if quick else 6)
     S += c06corpus.block_index_subjects(rng, quick, 1 if quick else 6)
+    S += c06corpus.first_symbol_subjects(rng, quick)
+    S += c06corpus.flag_variants(S, rng, 0.25 if quick else 1.0)
     S += c06corpus.encoder_subjects(rng, quick)
     for i, s in enumerate(S):
         s["id"] = i
